@@ -395,5 +395,7 @@ def post(rep, tier, seed):
         ctx.rng = random.Random(seed ^ 0x5eed)
         cmds = [c for c, fam in core_commands(ctx, 1400) if fam != "html" and len(json.dumps(c)) < 6000
                 and c.get("op") not in ("keypair", "hash_and_sign_event", "verify_event", "verify_json")][:900]
-        out["miri"] = miri.layer(rep, cmds, seed=seed, compare_native=False)
+        # regex construction is very slow under the interpreter: keep 3 pairs of each matcher batch
+        cmds = [dict(c, items=c["items"][:3]) if c.get("op") == "push_match_batch" else c for c in cmds]
+        out["miri"] = miri.layer(rep, cmds, seed=seed, compare_native=False, timeout=1500)
     return out
